@@ -110,6 +110,22 @@ def _check_case(durs, cols, off, res, light_too=True):
                 res.violation(f"C17|n={len(durs)}|not-periodic", f"{case0} t={t}", dict(case0, t=t))
         except Exception:
             pass
+    # history part of "TrafficLight agrees with its cycle": the light was queried at every t above; now its cycle is
+    # replaced through the public setter (reversed colours, other offset) and every t is queried again
+    cols2, durs2, off2 = list(cols)[::-1], list(durs)[::-1], off + 1
+    expanded2 = [c for c, d in zip(cols2, durs2) for _ in range(d)]
+    try:
+        light.traffic_light_cycle = TrafficLightCycle([TrafficLightCycleElement(c, d) for c, d in zip(cols2, durs2)],
+                                                      time_offset=off2)
+        for t in ts:
+            res.evals += 1; res.transitions += 1
+            got = light.get_state_at_time_step(t)
+            if got != expanded2[(t - off2) % T] or got != light.traffic_light_cycle.get_state_at_time_step(t):
+                res.violation(f"C17|n={len(durs)}|light-disagrees-with-cycle-after-cycle-replaced",
+                              f"{case0} t={t}: light gives {got}, its new cycle {expanded2[(t - off2) % T]}", dict(case0, t=t))
+                break
+    except Exception as e:
+        res.violation(f"C17|n={len(durs)}|cycle-replace|raises:{type(e).__name__}", repr(e), dict(case0))
     res.states += 1
     if nontriv:
         res.nontrivial += len(ts)
